@@ -210,3 +210,228 @@ def gen_vec_regs(corners_only=False, rnd=None, frac=1.0):
             for b in XMM:
                 out.append(mk("avx_mov_vv", mn, "vv", "%s %s, %s" % (mn, a, b), [R(a), R(b)], 128))
     return out
+
+
+def gen_adx():
+    out = []
+    for mn in ("adcx", "adox"):
+        for w in (32, 64):
+            for a in BYW[w]:
+                for b in BYW[w]:
+                    out.append(mk("adx_rr", mn, "rr", "%s %s, %s" % (mn, a, b), [R(a), R(b)], w))
+    return out
+
+
+# ----------------------------------------------------------------- C02
+DISP_MAG = [0, 1, 0x7f, 0x80, 0x81, 0xff, 0x100, 0x7fff, 0x8000, 0x7fffffff]
+DISPS = [None] + [d for d in DISP_MAG] + [-d for d in DISP_MAG if d] + [-0x80000000]
+KW = {8: "byte", 16: "word", 32: "dword", 64: "qword"}
+
+
+def render_mem(base, index, scale, order, disp, hexdisp=True):
+    """AssemblyLine/nasm text of a memory operand (without size keyword)."""
+    parts = []
+    if base:
+        parts.append(base)
+    if index:
+        if scale is None:
+            parts.append(index)
+        elif order == "is":
+            parts.append("%s*%d" % (index, scale))
+        else:
+            parts.append("%d*%s" % (scale, index))
+    s = "+".join(parts)
+    if disp is not None:
+        mag = abs(disp)
+        d = ("0x%x" % mag) if hexdisp else ("%d" % mag)
+        if s:
+            s += ("-" if disp < 0 else "+") + d
+        else:
+            s = ("-" if disp < 0 else "") + d
+    return "[" + s + "]"
+
+
+def mem_exp(width, base, index, scale, disp, literal_sp_index=False):
+    asz = REGW[base or index] if (base or index) else 64
+    lin = []
+    if base:
+        lin.append((base, 1))
+    if index and not literal_sp_index:
+        lin.append((index, scale or 1))
+    return ("m", width, asz, tuple(lin), disp or 0)
+
+
+def shape_ok(base, index, scale, order, disp):
+    if not base and not index:
+        return disp is not None and disp >= 0
+    if index in ("rsp", "esp"):
+        return scale is None and base and base not in ("rsp", "esp")
+    if index and not base:
+        return scale is not None and order == "si"
+    if base and index and REGW[base] != REGW[index]:
+        return False
+    return True
+
+
+def shapes(tier_full, rnd, per_combo_disps=2):
+    """Yield (base, index, scale, order, disp, hexdisp). Stratified: every base x every
+    index class x every scale/order, with displacement boundaries cycled + random."""
+    bases = [None] + R64 + R32
+    di = 0
+    for base in bases:
+        fam = R32 if (base in R32) else R64
+        if tier_full:
+            idxs = [None] + fam
+        else:
+            idxs = [None] + [fam[i] for i in (1, 9, 5, 13, 12, 4)] + [rnd.choice(fam)]
+        for index in idxs:
+            scopts = [(None, "is")] if index is None else [(None, "is")] + [(s, o) for s in (1, 2, 4, 8) for o in ("is", "si")]
+            for scale, order in scopts:
+                if tier_full:
+                    ds = DISPS
+                else:
+                    ds = []
+                    for _ in range(per_combo_disps):
+                        ds.append(DISPS[di % len(DISPS)])
+                        di += 1
+                    ds.append(rnd.choice(DISPS))
+                for disp in ds:
+                    if not shape_ok(base, index, scale, order, disp):
+                        continue
+                    for hexdisp in ((True, False) if (tier_full and disp is not None) else (rnd.random() < 0.7,)):
+                        yield base, index, scale, order, disp, hexdisp
+    for disp in (0, 1, 4, 0x7f, 0x80, 0xff, 0x100, 0x1234, 0x7fffffff):
+        yield None, None, None, "is", disp, True
+        yield None, None, None, "is", disp, False
+
+
+# instruction classes taking a memory operand: (class, mnemonics, builder)
+def _rm(mn, w, reg):
+    return lambda M, E, kw: ("%s %s, %s%s" % (mn, reg, kw, M), [R(reg), E(w)])
+
+
+def mem_classes(rnd):
+    """list of (class name, width or None, needs_kw(bool), make(Mtext, E(width)->tuple, kwtext) -> (text, ops), kwmode)
+    kwmode: 'opt' keyword optional (register gives the size), 'req' required (written), 'none' never written."""
+    C = []
+
+    def add(name, mn, w, kwmode, fn, **kw):
+        C.append(dict(name=name, mn=mn, w=w, kwmode=kwmode, fn=fn, **kw))
+
+    regs = {8: ["cl", "r9b", "dh", "sil"], 16: ["cx", "r9w"], 32: ["ecx", "r9d"], 64: ["rcx", "r9"]}
+    for w in (8, 16, 32, 64):
+        for reg in regs[w]:
+            for mn in ("add", "cmp", "mov", "xor"):
+                add("alu_rm", mn, w, "opt", lambda M, E, k, mn=mn, reg=reg, w=w: ("%s %s, %s%s" % (mn, reg, k, M), [R(reg), E(w)]), reg=reg)
+                add("alu_mr", mn, w, "opt", lambda M, E, k, mn=mn, reg=reg, w=w: ("%s %s%s, %s" % (mn, k, M, reg), [E(w), R(reg)]), reg=reg)
+            add("test_mr", "test", w, "opt", lambda M, E, k, reg=reg, w=w: ("test %s%s, %s" % (k, M, reg), [E(w), R(reg)]), reg=reg)
+            add("xchg_rm", "xchg", w, "opt", lambda M, E, k, reg=reg, w=w: ("xchg %s, %s%s" % (reg, k, M), [R(reg), E(w)]), reg=reg)
+        for mn in ("add", "sub", "cmp", "mov", "test"):
+            add("alu_mi", mn, w, "req", lambda M, E, k, mn=mn, w=w: ("%s %s%s, 5" % (mn, k, M), [E(w), I(5)]), imm=5)
+        for mn in UNARY:
+            add("unary_m", mn, w, "req", lambda M, E, k, mn=mn, w=w: ("%s %s%s" % (mn, k, M), [E(w)]))
+        for mn in ("shl", "sar", "shr"):
+            add("shift_m1", mn, w, "req", lambda M, E, k, mn=mn, w=w: ("%s %s%s, 1" % (mn, k, M), [E(w), I(1)]), imm=1)
+            add("shift_mi", mn, w, "req", lambda M, E, k, mn=mn, w=w: ("%s %s%s, 5" % (mn, k, M), [E(w), I(5)]), imm=5)
+            add("shift_mcl", mn, w, "req", lambda M, E, k, mn=mn, w=w: ("%s %s%s, cl" % (mn, k, M), [E(w), R("cl")]))
+    for w in (16, 32, 64):
+        for reg in regs[w]:
+            add("lea", "lea", None, "none", lambda M, E, k, reg=reg: ("lea %s, %s" % (reg, M), [R(reg), E(None)]), reg=reg)
+            add("cmov_rm", "cmovne", w, "opt", lambda M, E, k, reg=reg, w=w: ("cmovne %s, %s%s" % (reg, k, M), [R(reg), E(w)]), reg=reg)
+            add("imul_rm", "imul", w, "opt", lambda M, E, k, reg=reg, w=w: ("imul %s, %s%s" % (reg, k, M), [R(reg), E(w)]), reg=reg)
+            add("imul_rmi", "imul", w, "opt", lambda M, E, k, reg=reg, w=w: ("imul %s, %s%s, 5" % (reg, k, M), [R(reg), E(w), I(5)]), reg=reg, imm=5)
+            add("movzx_rm8", "movzx", w, "req8", lambda M, E, k, reg=reg: ("movzx %s, byte %s" % (reg, M), [R(reg), E(8)]), reg=reg)
+            add("shld_mri", "shld", w, "opt", lambda M, E, k, reg=reg, w=w: ("shld %s%s, %s, 5" % (k, M, reg), [E(w), R(reg), I(5)]), reg=reg, imm=5)
+            add("shld_mrcl", "shld", w, "opt", lambda M, E, k, reg=reg, w=w: ("shld %s%s, %s, cl" % (k, M, reg), [E(w), R(reg), R("cl")]), reg=reg)
+    for reg in ("ecx", "r9d", "rcx", "r9"):
+        add("movzx_rm16", "movzx", REGW[reg], "req16", lambda M, E, k, reg=reg: ("movzx %s, word %s" % (reg, M), [R(reg), E(16)]), reg=reg)
+    for w in (32, 64):
+        for reg in regs[w]:
+            add("adx_rm", "adcx", w, "opt", lambda M, E, k, reg=reg, w=w: ("adcx %s, %s%s" % (reg, k, M), [R(reg), E(w)]), reg=reg)
+            for mn in ("bextr", "shlx"):
+                add("bmi_rmr", mn, w, "opt", lambda M, E, k, mn=mn, reg=reg, w=w: ("%s %s, %s%s, %s" % (mn, reg, k, M, reg), [R(reg), E(w), R(reg)]), reg=reg)
+            add("bmi_rrm", "mulx", w, "opt", lambda M, E, k, reg=reg, w=w: ("mulx %s, %s, %s%s" % (reg, reg, k, M), [R(reg), R(reg), E(w)]), reg=reg)
+            add("rorx_rmi", "rorx", w, "opt", lambda M, E, k, reg=reg, w=w: ("rorx %s, %s%s, 5" % (reg, k, M), [R(reg), E(w), I(5)]), reg=reg, imm=5)
+    add("push_m", "push", 64, "none64", lambda M, E, k: ("push %s%s" % (k, M), [E(64)]))
+    add("jmp_m", "jmp", 64, "none64", lambda M, E, k: ("jmp %s%s" % (k, M), [E(64)]))
+    add("call_m", "call", 64, "none64", lambda M, E, k: ("call %s%s" % (k, M), [E(64)]))
+    for mn in ("sete", "setnbe"):
+        add("setcc_m", mn, 8, "none8", lambda M, E, k, mn=mn: ("%s %s%s" % (mn, k, M), [E(8)]))
+    for mn in ("prefetcht0", "prefetchnta", "clflush"):
+        add("hint_m", mn, 8, "none8", lambda M, E, k, mn=mn: ("%s %s%s" % (mn, k, M), [E(8)]))
+    for x in ("xmm1", "xmm9"):
+        for mn in ("paddb", "pxor", "pmulld", "movntdqa"):
+            add("sse_vm", mn, 128, "nonev", lambda M, E, k, mn=mn, x=x: ("%s %s, %s" % (mn, x, M), [R(x), E(128)]), reg=x)
+        add("movd_vm", "movd", 32, "nonev", lambda M, E, k, x=x: ("movd %s, %s" % (x, M), [R(x), E(32)]), reg=x)
+        add("movd_mv", "movd", 32, "nonev", lambda M, E, k, x=x: ("movd %s, %s" % (M, x), [E(32), R(x)]), reg=x)
+        add("movq_vm", "movq", 64, "nonev", lambda M, E, k, x=x: ("movq %s, %s" % (x, M), [R(x), E(64)]), reg=x)
+        add("movq_mv", "movq", 64, "nonev", lambda M, E, k, x=x: ("movq %s, %s" % (M, x), [E(64), R(x)]), reg=x)
+        for mn in ("vpaddb", "vpmulld"):
+            add("avx_vvm", mn, 128, "nonev", lambda M, E, k, mn=mn, x=x: ("%s %s, %s, %s" % (mn, x, x, M), [R(x), R(x), E(128)]), reg=x)
+        for mn in AVX_MOV:
+            add("avx_mov_vm", mn, 128, "nonev", lambda M, E, k, mn=mn, x=x: ("%s %s, %s" % (mn, x, M), [R(x), E(128)]), reg=x)
+            add("avx_mov_mv", mn, 128, "nonev", lambda M, E, k, mn=mn, x=x: ("%s %s, %s" % (mn, M, x), [E(128), R(x)]), reg=x)
+    for y in ("ymm1", "ymm9"):
+        for mn in ("vpaddb", "vaddpd", "vpermd"):
+            add("avx_yym", mn, 256, "nonev", lambda M, E, k, mn=mn, y=y: ("%s %s, %s, %s" % (mn, y, y, M), [R(y), R(y), E(256)]), reg=y)
+        add("avx_yymi", "vperm2i128", 256, "nonev", lambda M, E, k, y=y: ("vperm2i128 %s, %s, %s, 0x31" % (y, y, M), [R(y), R(y), E(256), I(0x31)]), reg=y, imm=0x31)
+        for mn in AVX_MOV:
+            add("avx_mov_ym", mn, 256, "nonev", lambda M, E, k, mn=mn, y=y: ("%s %s, %s" % (mn, y, M), [R(y), E(256)]), reg=y)
+            add("avx_mov_my", mn, 256, "nonev", lambda M, E, k, mn=mn, y=y: ("%s %s, %s" % (mn, M, y), [E(256), R(y)]), reg=y)
+    for mreg in ("mm1", "mm7"):
+        for mn in ("paddb", "pxor"):
+            add("mmx_rm", mn, 64, "nonev", lambda M, E, k, mn=mn, r=mreg: ("%s %s, %s" % (mn, r, M), [R(r), E(64)]), reg=mreg)
+        add("movntq", "movntq", 64, "nonev", lambda M, E, k, r=mreg: ("movntq %s, %s" % (M, r), [E(64), R(r)]), reg=mreg)
+    return C
+
+
+STRUCTURAL = {"lea", "alu_rm", "alu_mi", "sse_vm", "avx_vvm", "bmi_rmr", "push_m", "movd_mv"}
+
+
+def gen_mem(tier_full, rnd, classes=None, per_class=None):
+    """Memory-operand cases: address shapes x instruction classes."""
+    out = []
+    cls = mem_classes(rnd)
+    byname = {}
+    for c in cls:
+        byname.setdefault(c["name"], []).append(c)
+    shp_quick = list(shapes(False, rnd))
+    shp_full = list(shapes(True, rnd)) if tier_full else None
+    for name, members in sorted(byname.items()):
+        if classes and name not in classes:
+            continue
+        shp = shp_full if (tier_full and name in STRUCTURAL) else shp_quick
+        n = len(shp) if per_class is None else min(per_class, len(shp))
+        picks = shp if n == len(shp) else rnd.sample(shp, n)
+        for (base, index, scale, order, disp, hexdisp) in picks:
+            ext = (base and regnum(base) >= 8) or (index and regnum(index) >= 8)
+            ms = [m for m in members if not (ext and m.get("reg") in R8H)] or members
+            c = rnd.choice(ms)
+            out.append(mem_case(c, base, index, scale, order, disp, hexdisp, rnd))
+    return out
+
+
+def mem_case(c, base, index, scale, order, disp, hexdisp, rnd=None, kw_written=None):
+    M = render_mem(base, index, scale, order, disp, hexdisp)
+    w = c["w"]
+    kwmode = c["kwmode"]
+    if kw_written is None:
+        kw_written = kwmode == "req" or (kwmode == "opt" and (rnd.random() < 0.5 if rnd else False))
+    k = (KW[w] + " ") if (kw_written and kwmode in ("opt", "req")) else ""
+    E = lambda width: mem_exp(width, base, index, scale, disp)
+    text, ops = c["fn"](M, E, k)
+    # nasm spelling: always give nasm the size where it needs one
+    nk = ""
+    if kwmode in ("opt", "req"):
+        nk = KW[w] + " "
+    elif kwmode == "none64":
+        nk = "qword "
+    elif kwmode == "none8" and c["mn"].startswith("set"):
+        nk = "byte "
+    ntext, _ = c["fn"](M, E, nk)
+    case = mk("mem_" + c["name"], c["mn"], c["name"], text, ops, w, nasm=ntext)
+    case.update(base=base, index=index, scale=scale, order=order, disp=disp, hexdisp=hexdisp, kw=bool(k),
+                asz=(REGW[base or index] if (base or index) else 64), mreg=c.get("reg"), mimm=c.get("imm"))
+    case["base_n"] = regnum(base) if base else None
+    case["index_n"] = regnum(index) if index else None
+    return case
